@@ -31,7 +31,7 @@ def plan(tier):
 
 
 def required_regimes(tier):
-    return c01.required_regimes(tier) - {'reflect:allowed_raise', 'variant:N=1', 'variant:C=2', 'variant:no_grad'} | {'extra_trailing_sample', 'exact_extent', 'pair:4tuple', 'mode_reassigned'}
+    return c01.required_regimes(tier) - {'reflect:allowed_raise', 'variant:N=1', 'variant:C=2', 'variant:no_grad', 'variant:positional'} | {'extra_trailing_sample', 'exact_extent', 'pair:4tuple', 'mode_reassigned'}
 
 
 def run(item):
